@@ -1348,4 +1348,3 @@ func (c semCtx) chain(ch *wChain) (v3, bool) {
 	}
 	return or3(acc, cur), true
 }
-
